@@ -184,9 +184,6 @@ package encode
 //@   ensures [C01.enc.setnreg.copy.b0] internal thorough (=> (proto.accepts S0 (proto.badAdj adj incr)) (= (at e.buf (bvadd XP0 (int 1))) (select e.scratch iBest)))
 //@   ensures [C01.enc.setnreg.copy.b1] internal thorough (=> (and (proto.accepts S0 (proto.badAdj adj incr)) (bvugt nBest (int 1))) (= (at e.buf (bvadd XP0 (int 2))) (select e.scratch (bvadd iBest (int 1)))))
 //@   ensures [C01.enc.setnreg.copy.b23] internal thorough (=> (and (proto.accepts S0 (proto.badAdj adj incr)) (bvugt nBest (int 2))) (and (= (at e.buf (bvadd XP0 (int 3))) (select e.scratch (bvadd iBest (int 2)))) (= (at e.buf (bvadd XP0 (int 4))) (select e.scratch (bvadd iBest (int 3))))))
-//@   let XQ (bvadd XP (int 1))
-//@   let XD (styl.number XB XP)
-//@   ensures [C01.enc.setnreg.instr] cumulative thorough (=> (proto.accepts S0 (proto.badAdj adj incr)) (and XOK (= XEV (ivg.Destination.SetNReg nil.Iface adj incr XD))))
 
 //@ contract (*Encoder).SetLOD
 //@   note counts C02
